@@ -170,7 +170,7 @@ def check(ctx, rid, prop):
         r.check(ok, 'boundary|%s|%s' % (e['fn'].replace('proto::streams::', ''), e['key']), '%s:%s' % (f.file, lines[0]),
                 '%s: %s splits at %s (reviewed: %s). %s' % (e['fn'].split('::')[-1], e['key'], '/'.join(got), '/'.join(want), e['why']))
     r.stat('entries', len(tab))
-    r.floor(found, max(1, int(len(tab) * 0.8)), 'reviewed boundaries found in the tree')
+    r.floor(found, int(len(tab) * 0.8) if len(tab) >= 5 else 0, 'reviewed boundaries found in the tree')
     return r
 
 
@@ -213,7 +213,7 @@ def check_amounts(ctx, rid, prop):
         r.check(ok, 'amount|%s|%s%s' % (e['caller'].replace('proto::streams::', ''), e['callee'].replace('proto::streams::', ''), ('#%d' % e['arg']) if e.get('arg', 1) != 1 else ''), '%s:%s' % (f.file, lines[0]),
                 '%s passes %s to %s (reviewed: %s). %s' % (e['caller'].split('::')[-1] if 'closure' not in e['caller'] else e['caller'].split('::')[-2] + '::{closure}', got, e['callee'].split('::')[-1], want, e['why']))
     r.stat('entries', len(tab))
-    r.floor(found, max(1, int(len(tab) * 0.8)), 'reviewed amount sites found in the tree')
+    r.floor(found, int(len(tab) * 0.8) if len(tab) >= 5 else 0, 'reviewed amount sites found in the tree')
     return r
 
 
@@ -299,7 +299,7 @@ def check_calls(ctx, rid, prop):
             r.check(bool(sites) and not bad, key, f.file,
                     '%s %s %s. %s' % (e['caller'].split('::')[-1], 'passes' if sites and not bad else 'can return without passing', e['callee'], e['why']), witness=wit)
     r.stat('entries', len(tab))
-    r.floor(found, max(1, int(len(tab) * 0.8)), 'reviewed callers found in the tree')
+    r.floor(found, int(len(tab) * 0.8) if len(tab) >= 5 else 0, 'reviewed callers found in the tree')
     return r
 
 
@@ -395,7 +395,7 @@ def check_guards(ctx, rid, prop):
         r.check(ok, 'guard|%s|%s' % (e['fn'].replace('proto::streams::', ''), e['action']), f.loc(sites[0]),
                 '%s: %s executes under %s (reviewed: %s). %s' % (e['fn'].split('::')[-1], e['action'], got, want, e['why']))
     r.stat('entries', len(tab))
-    r.floor(found, max(1, int(len(tab) * 0.8)), 'reviewed guarded actions found in the tree')
+    r.floor(found, int(len(tab) * 0.8) if len(tab) >= 5 else 0, 'reviewed guarded actions found in the tree')
     return r
 
 
@@ -452,7 +452,7 @@ def check_writes(ctx, rid, prop):
         r.check(ok, 'write|%s|%s' % (e['fn'].replace('proto::streams::', ''), field), fam[0].file,
                 '%s assigns %s at %d site(s) (reviewed: %d). %s' % (e['fn'].split('::')[-1], field, len(sites), e['sites'], e['why']))
     r.stat('entries', len(tab))
-    r.floor(found, max(1, int(len(tab) * 0.8)), 'reviewed writers found in the tree')
+    r.floor(found, int(len(tab) * 0.8) if len(tab) >= 5 else 0, 'reviewed writers found in the tree')
     return r
 
 
@@ -505,7 +505,7 @@ def check_codes(ctx, rid, prop):
         r.check(ok, 'code|%s|%s' % (e['fn'].replace('proto::streams::', ''), e['ctor']), f.file if f else '',
                 '%s: %s with %s (reviewed: %s)%s. %s' % (e['fn'].split('::')[-1], e['ctor'], dict(have), dict(need), '' if ok else ' — %s no longer sent' % dict(missing), e['why']))
     r.stat('entries', len(tab))
-    r.floor(found, max(1, int(len(tab) * 0.8)), 'reviewed error sites found in the tree')
+    r.floor(found, int(len(tab) * 0.8) if len(tab) >= 5 else 0, 'reviewed error sites found in the tree')
     return r
 
 
@@ -552,5 +552,5 @@ def check_inits(ctx, rid, prop):
         r.check(ok, 'init|%s|%s.%s' % (e['fn'].replace('proto::streams::', ''), e['adt'].rsplit('::', 1)[-1], e['field']), f.file,
                 '%s initialises %s.%s from %s (reviewed: %s). %s' % (e['fn'].split('::')[-1], e['adt'].rsplit('::', 1)[-1], e['field'], got, e['atoms'], e['why']))
     r.stat('entries', len(tab))
-    r.floor(found, max(1, int(len(tab) * 0.8)), 'reviewed initialisers found in the tree')
+    r.floor(found, int(len(tab) * 0.8) if len(tab) >= 5 else 0, 'reviewed initialisers found in the tree')
     return r
